@@ -314,3 +314,42 @@ def text_roundtrip(vc):
         vc.prove("same-components",
                  [(dict(c.description), c.blob, c.actual_len, c.encrypt_by_session_key) for c in g.components] ==
                  [(dict(c.description), c.blob, c.actual_len, c.encrypt_by_session_key) for c in f.components])
+
+
+# ---------------------------------------------------------------------------------------
+# known finding (see /verif/known_findings.json): a component NOT marked for encryption whose description
+# carries ENC (0xC2) = SESSIONKEY (02) is written in clear but read back through the decryptor.
+
+def _has_enc_tag_on_plain(inputs):
+    for c in inputs.get("comps", []):
+        if not c.get("enc") and any(t[0] == 0xC2 and bytes(t[1]) == b"\x02" for t in c.get("tags", [])):
+            return True
+    return bool(inputs.get("enc_tag_on_plain"))
+
+
+KNOWN_CLASSES = {"plain-component-with-ENC=SESSIONKEY-tag": _has_enc_tag_on_plain}
+
+
+def fam_known(seed, tier):
+    yield dict(L=16, blob=bytes(range(16)), key=bytes(16), enc_tag_on_plain=True)
+    yield dict(L=5, blob=b"hello", key=bytes(16), enc_tag_on_plain=True)
+
+
+@proof("C01/known.enc-tag-on-plain-component", functions=FUNCS, family=fam_known)
+def known_enc_tag(vc):
+    M = vc.module(MOD)
+    stub_aes(vc, M)
+    vc.allow_symbolic_text_in_diagnostics()
+    L = vc.int("L", 1, 4096)
+    blob = vc.bytes("blob", L)
+    key = vc.bytes("key", 16)
+    vc.assume(vc.bool("enc_tag_on_plain"))
+    f = M.Bf3File({}, [M.Bf3Component({0xC2: b"\x02"}, blob)])
+    rdr = M.BytesReader(vc.cat(b"BF3\0\0", f.to_binary(5, key)), "x")
+    rdr.seek(5)
+    out = vc.call(M.Bf3File.from_binary, rdr, None, True, key)
+    if not out.returned:
+        vc.prove("post.same-components", False, repr(out.exc))
+        return
+    c = out.value.components[0]
+    vc.prove("post.same-components", vc.And(c.blob == blob, c.encrypt_by_session_key is False))
